@@ -156,8 +156,11 @@ func (w *World) instrMods(in ssa.Instruction) map[string]int {
 		out["alloc"] = 2
 		add(w.storeKeys(in))
 		if _, ok := types.Unalias(in.Type().(*types.Pointer).Elem()).(*types.Named); ok {
-			w.heapSort["typ"] = "(Array Int Int)"
-			out["typ"] = 1
+			if _, isStruct := in.Type().(*types.Pointer).Elem().Underlying().(*types.Struct); isStruct {
+				w.heapSort["typ"] = "(Array Int Int)"
+				out["typ"] = 1
+				out[fmt.Sprintf("typ#%d", w.structID(in.Type().(*types.Pointer).Elem()))] = 1
+			}
 		}
 	case *ssa.MakeMap:
 		mt := types.Unalias(in.Type()).Underlying().(*types.Map)
@@ -270,6 +273,9 @@ func (w *World) callMods(c *ssa.CallCommon) map[string]int {
 // "map[string]string" -> the three map arrays, "[]string" -> slice heap, "alloc".
 func (w *World) expandKey(k string) []string {
 	k = strings.TrimSpace(k)
+	if k == "alloc" || k == "typ" {
+		return []string{k}
+	}
 	if _, ok := w.heapSort[k]; ok {
 		return []string{k}
 	}
@@ -568,7 +574,7 @@ func (g *FnGen) applyContract(ci *calleeInfo, args []Term, fvs map[string]SVal, 
 		old := g.hget(st, k)
 		isArr := false
 		for _, ar := range arrRef {
-			if ar[0] == k && !hasNarrow[k] && ci.mods[k] == 0 {
+			if ar[0] == k && !hasNarrow[k] {
 				es := srt[len("(Array Int ") : len(srt)-1]
 				nv := g.declare(g.fresh("hv:"+k), es)
 				st.heap[k] = g.define(g.fresh("H:"+k), Term{fmt.Sprintf("(store %s %s %s)", g.hget(st, k).S, ar[1], nv.S), srt})
@@ -613,7 +619,7 @@ func (g *FnGen) applyContract(ci *calleeInfo, args []Term, fvs map[string]SVal, 
 			g.emit(fmt.Sprintf("(assert (forall ((r Int)) (! (=> %s (= (select %s r) (select %s r))) :pattern ((select %s r)))))", cond, nw.S, old.S, nw.S))
 			// ground instances for the references in scope, so that the frame does not depend on quantifier instantiation
 			if len(excl) == 0 {
-				for _, rt := range g.knownRefs() {
+				for _, rt := range g.knownRefsFor(k) {
 					g.emit(fmt.Sprintf("(assert (=> (<= %s %s) (= (select %s %s) (select %s %s))))", rt, allocBefore.S, nw.S, rt, old.S, rt))
 				}
 			}
@@ -622,9 +628,23 @@ func (g *FnGen) applyContract(ci *calleeInfo, args []Term, fvs map[string]SVal, 
 	if mods["alloc"] > 0 || mods["typ"] > 0 {
 		g.typClosed(st)
 	}
+	if mods["typ"] > 0 {
+		// objects allocated by the callee have one of the types it (transitively) allocates
+		var alts []string
+		for k := range mods {
+			if strings.HasPrefix(k, "typ#") {
+				alts = append(alts, fmt.Sprintf("(= (select %s r) %s)", g.hget(st, "typ").S, k[4:]))
+			}
+		}
+		sort.Strings(alts)
+		g.emit(fmt.Sprintf("(assert (forall ((r Int)) (! (=> (> r %s) (or (= (select %s r) 0) %s)) :pattern ((select %s r)))))", allocBefore.S, g.hget(st, "typ").S, strings.Join(alts, " "), g.hget(st, "typ").S))
+	}
 	for _, k := range mk {
 		if strings.HasPrefix(k, "Mcard:") {
 			g.mapWF(st, k)
+		}
+		if strings.HasPrefix(k, "F:") {
+			g.heapClosed(st, k)
 		}
 	}
 	// results
@@ -707,6 +727,20 @@ func (g *FnGen) applyContract(ci *calleeInfo, args []Term, fvs map[string]SVal, 
 	}
 	g.callRes[fmt.Sprintf("%s#%d", ci.key, callOrd)] = rs
 	g.callReach[fmt.Sprintf("%s#%d", ci.key, callOrd)] = reach
+	// intermediate assertions ("cuts") of the enclosing function's contract placed after this call
+	for _, cl := range g.clauses("cut") {
+		if cl.Key != ci.key || cl.Loop != callOrd {
+			continue
+		}
+		env := g.envAt(st, g.entry, nil)
+		if g.curInstr != nil {
+			env.at = g.curInstr.Block()
+		}
+		goal := g.evalBool(env, cl)
+		g.oblige("cut", cl.Label, cl.Props, reach, goal, cl.Src, pos)
+		g.assume(reach, goal)
+	}
+
 	// global invariants survive calls (they are re-established by every function that could break them: see frame.global)
 	if len(mk) > 0 {
 		g.assumeGlobals(st, reach)
@@ -1001,6 +1035,46 @@ func (g *FnGen) knownRefs() []string {
 	sort.Strings(out)
 	if len(out) > 40 {
 		out = out[:40]
+	}
+	return out
+}
+
+// knownRefsFor: the references in scope that can index the given heap component (objects of the field's struct
+// type, maps of the map type, ...). Keeps the ground frame instances relevant.
+func (g *FnGen) knownRefsFor(key string) []string {
+	var want string
+	switch {
+	case strings.HasPrefix(key, "F:"):
+		want = key[2:strings.LastIndex(key, ".")] // pkg.Type
+	case strings.HasPrefix(key, "Mdom:"), strings.HasPrefix(key, "Mval:"), strings.HasPrefix(key, "Mcard:"):
+		want = key[strings.Index(key, ":")+1:]
+	case key == "typ":
+		return g.knownRefs()
+	default:
+		return nil
+	}
+	seen := map[string]bool{}
+	var out []string
+	for v, t := range g.vals {
+		if t.Sort != "Int" || !strings.HasPrefix(t.S, "|") || seen[t.S] {
+			continue
+		}
+		vt := types.Unalias(v.Type())
+		ok := false
+		if p, isPtr := vt.Underlying().(*types.Pointer); isPtr && namedName(p.Elem()) == want {
+			ok = true
+		}
+		if _, isMap := vt.Underlying().(*types.Map); isMap && typeName(vt.Underlying()) == want {
+			ok = true
+		}
+		if ok {
+			seen[t.S] = true
+			out = append(out, t.S)
+		}
+	}
+	sort.Strings(out)
+	if len(out) > 20 {
+		out = out[:20]
 	}
 	return out
 }
